@@ -135,7 +135,7 @@ fn find_slice_files(paths: &[String], are_source_files: bool, diagnostics: &mut 
             continue;
         }
 
-        slice_paths.extend(find_slice_files_in_path(path_buf, diagnostics));
+        slice_paths.extend(find_slice_files_in_path(path_buf, &mut Vec::new(), diagnostics));
     }
 
     slice_paths
@@ -156,11 +156,20 @@ fn find_slice_files(paths: &[String], are_source_files: bool, diagnostics: &mut 
         .collect()
 }
 
-fn find_slice_files_in_path(path: PathBuf, diagnostics: &mut Diagnostics) -> Vec<PathBuf> {
+/// `ancestors` holds the canonical paths of the directories that are currently being searched. A directory that (through
+/// symbolic links) contains itself is not searched again from within itself; without this, such links are followed until the
+/// operating system refuses, which takes forever as soon as there are two of them.
+fn find_slice_files_in_path(path: PathBuf, ancestors: &mut Vec<PathBuf>, diagnostics: &mut Diagnostics) -> Vec<PathBuf> {
     let mut paths = Vec::new();
     if path.is_dir() {
+        let canonical_path = path.canonicalize().ok();
+        if canonical_path.as_ref().is_some_and(|canonical_path| ancestors.contains(canonical_path)) {
+            return paths;
+        }
+
         // Recurse into the directory.
-        match find_slice_files_in_directory(&path, diagnostics) {
+        ancestors.extend(canonical_path.clone());
+        match find_slice_files_in_directory(&path, ancestors, diagnostics) {
             Ok(child_paths) => paths.extend(child_paths),
             Err(error) => Diagnostic::new(Error::IO {
                 action: "read",
@@ -168,6 +177,9 @@ fn find_slice_files_in_path(path: PathBuf, diagnostics: &mut Diagnostics) -> Vec
                 error,
             })
             .push_into(diagnostics),
+        }
+        if canonical_path.is_some() {
+            ancestors.pop();
         }
     } else if path.is_file() && is_slice_file(&path) {
         // Add the file to the list of paths.
@@ -178,14 +190,18 @@ fn find_slice_files_in_path(path: PathBuf, diagnostics: &mut Diagnostics) -> Vec
     paths
 }
 
-fn find_slice_files_in_directory(path: &Path, diagnostics: &mut Diagnostics) -> io::Result<Vec<PathBuf>> {
+fn find_slice_files_in_directory(
+    path: &Path,
+    ancestors: &mut Vec<PathBuf>,
+    diagnostics: &mut Diagnostics,
+) -> io::Result<Vec<PathBuf>> {
     let mut paths = Vec::new();
     let dir = path.read_dir()?;
 
     // Iterate though the directory and recurse into any subdirectories.
     for child in dir {
         match child {
-            Ok(child) => paths.extend(find_slice_files_in_path(child.path(), diagnostics)),
+            Ok(child) => paths.extend(find_slice_files_in_path(child.path(), ancestors, diagnostics)),
             Err(error) => {
                 // If we cannot read the directory entry, report an error and continue.
                 Diagnostic::new(Error::IO {
